@@ -419,3 +419,129 @@ def c09(ctx):
                     ctx.violation(cls, "diagnostics changed other than by translation", {"base": cases[k], "variant": cases[j], "expected": exp[:10], "got": got[:10]})
     ctx.correspondence("P vs prefix+P / BOM+P / CRLF(P) (implementation differential, all rules)", len(cases), len(nontriv), [],
                        "repo test programs + pipeline scenarios; prefixes %s; non-trivial := program with at least one diagnostic" % [p for p, _ in PREFIXES])
+
+
+# ------------------------------------------------------------------ C01
+ALL_MEDIA = ["js", "mjs", "cjs", "jsx", "ts", "mts", "cts", "dts", "tsx"]
+TOKENS = ["(", ")", "{", "}", "[", "]", ";", ",", "=>", "=", "<", ">", "/", "`", "'", '"', "\\", "${", "?.", "...", "/*", "//", "\n", " ",
+          "class ", "function ", "async ", "await ", "enum ", "get ", "new RegExp(", "/(?<a", "[,]", "+ ''", "<a ", "/>", "</", "😀", "é", " ", "﻿",
+          "#!", "if (", "while (", "switch (", "case ", "label: ", "break ", "continue ", "typeof ", "0", "1n", "09", "\\u{", "\\k<", "a{99999999999999999999}"]
+
+
+def mutate(rng, s):
+    if not s:
+        return rng.choice(TOKENS)
+    k = rng.random()
+    chars = list(s)
+    if k < 0.2:
+        return s[:rng.randrange(len(chars) + 1)]
+    if k < 0.35:
+        return s[rng.randrange(len(chars)):]
+    if k < 0.6:
+        i = rng.randrange(len(chars) + 1)
+        return "".join(chars[:i]) + rng.choice(TOKENS) + "".join(chars[i:])
+    if k < 0.75:
+        i = rng.randrange(len(chars)); j = min(len(chars), i + rng.randint(1, 8))
+        return "".join(chars[:i] + chars[j:])
+    if k < 0.85:
+        i = rng.randrange(len(chars))
+        chars[i] = rng.choice(TOKENS)
+        return "".join(chars)
+    if k < 0.9:
+        return "﻿" + s
+    if k < 0.95:
+        return s.replace("\n", "\r\n")
+    i = rng.randrange(len(chars)); j = min(len(chars), i + rng.randint(1, 20))
+    return "".join(chars[:j] + chars[i:j] + chars[j:])
+
+
+def classify_crash(res, case):
+    """Specific class of a panic/crash so that known findings in dependencies can be told apart."""
+    if "panic" in res:
+        return "panic@" + str(res.get("at"))
+    return "crash:" + str(res.get("crash"))
+
+
+def parser_input_class(case):
+    """A syntactic class for hard parser crashes (no panic site available)."""
+    import re
+    src = re.sub(r"/\*.*?\*/", " ", case["src"], flags=re.S)
+    m = list(re.finditer(r"\benum\s+[A-Za-z_$][\w$]*\s*\{", src))
+    if m and case["media"] in ("ts", "tsx", "mts", "cts", "dts"):
+        tail = src[m[-1].end():]
+        tail_nocomment = re.sub(r"//[^\n]*", "", tail)
+        if "}" not in tail_nocomment or re.search(r"=\s*['\"][^'\"\n]*\n", tail):
+            return "ts-enum-body-not-terminated"
+    return "other-input"
+
+
+@register("C01")
+def c01(ctx):
+    ctx.assumptions.append("totality is PROVED only for the modelled cores (directive parser, pipeline arithmetic, regex validator, CF analyzer unwraps, traverse flag machine); for the ~110 rule bodies and swc it is an exploration (search for a failing input), stated as such")
+    ctx.proof_stage("C01", [])
+    rng = random.Random(ctx.seed + 1)
+    reg = lib.vh_registry()
+    codes = [r["code"] for r in reg["rules"]]
+    corpus = get_corpus()
+    cases = []
+    quick = ctx.tier == "quick"
+    # (1) every repo test program, all rules, random media type
+    for sn in (sample_corpus(rng, 2500) if quick else corpus):
+        for m in ([rng.choice(ALL_MEDIA)] if quick else ALL_MEDIA[:]):
+            cases.append({"src": sn["src"], "media": m, "rules": "all"})
+    # (2) rule subsets: empty, single, recommended, random
+    for sn in sample_corpus(rng, 600 if quick else 3000):
+        k = rng.random()
+        rules = [] if k < 0.1 else "recommended" if k < 0.3 else [rng.choice(codes)] if k < 0.6 else rng.sample(codes, rng.randint(2, 40))
+        cases.append({"src": sn["src"], "media": rng.choice(ALL_MEDIA), "rules": rules})
+    # (3) malformed stream
+    for _ in range(6000 if quick else 150000):
+        s = rng.choice(corpus)["src"]
+        for _ in range(rng.choice([1, 1, 2, 3])):
+            s = mutate(rng, s)
+        cases.append({"src": s, "media": rng.choice(ALL_MEDIA), "rules": "all" if rng.random() < 0.8 else "recommended"})
+    # (4) deep nesting / long inputs (time proportional to input size)
+    for n in ([200, 1000] if quick else [200, 1000, 4000]):
+        cases.append({"src": "(" * n + "1" + ")" * n + ";", "media": "js", "rules": "all"})
+        cases.append({"src": "if (a) {" * n + "}" * n, "media": "ts", "rules": "all"})
+        cases.append({"src": "x = " + "[" * n + "]" * n + ";", "media": "ts", "rules": "all"})
+        cases.append({"src": "a" + " + a" * (n * 5) + ";", "media": "ts", "rules": "all"})
+        cases.append({"src": "/" + "(a|b)*" * n + "/;", "media": "js", "rules": "all"})
+        cases.append({"src": "// deno-lint-ignore " + "no-debugger," * n + "\ndebugger;" * 50, "media": "ts", "rules": "all"})
+    t = time.time()
+    res = lib.run_vh("lint", cases, per_case_timeout=3.0)
+    trel = time.time() - t
+    # debug build (overflow checks, debug assertions) on a sample
+    dbg_cases = rng.sample(cases, 1500 if quick else 20000)
+    t = time.time()
+    dres = lib.run_vh("lint", dbg_cases, profile="debug", per_case_timeout=10.0)
+    tdbg = time.time() - t
+    log("[C01] release %d cases %.1fs, debug %d cases %.1fs" % (len(cases), trel, len(dbg_cases), tdbg))
+    stat = collections.Counter()
+    seen = collections.Counter()
+    nontriv = set()
+    failing = []
+    for build, cs, rs in (("release", cases, res), ("debug", dbg_cases, dres)):
+        for c, r in zip(cs, rs):
+            st = status(r)
+            stat[build + ":" + st] += 1
+            if st == "ok" and r["ok"]:
+                nontriv.add(c["src"])
+            if st in ("panic", "crash", "none", "other"):
+                failing.append((build, c, r))
+    # does the parser alone (deno_ast::parse_program, no deno_lint code) already fail on that input?
+    for build in ("release", "debug"):
+        fs = [(c, r) for b, c, r in failing if b == build]
+        pr = lib.run_vh("parse", [{"src": c["src"], "media": c["media"]} for c, r in fs], profile=build, per_case_timeout=10.0) if fs else []
+        for (c, r), p in zip(fs, pr):
+            if status(p) in ("panic", "crash"):
+                cls = "C01.dependency-parser:" + classify_crash(p, c) + (":" + parser_input_class(c) if "crash" in p else "")
+            else:
+                cls = "C01." + build + ":" + classify_crash(r, c)
+            seen[cls] += 1
+            if seen[cls] <= 2:
+                ctx.violation(cls, "lint does not return normally (%s build): %s" % (build, json.dumps(r)[:200]), {"case": c, "build": build, "result": r, "parser_alone": p})
+    ctx.extra["outcomes"] = dict(stat)
+    ctx.correspondence("totality exploration: repo test programs x media types x rule subsets + malformed stream + deep/long inputs (release and debug builds)",
+                       len(cases) + len(dbg_cases), len(nontriv), [],
+                       "each case runs in a crash-isolated worker under a per-input time limit; non-trivial := input that parses and yields at least one diagnostic")
